@@ -122,6 +122,33 @@ func c06Run(text string, docs []run.Node, ops []c06Op, loose, multi bool) string
 			if msg := run.SameOutcomeMF(o, f, loose, multi); msg != "" {
 				return fmt.Sprintf("step %d: fresh compilation vs used expression: %s", step, msg)
 			}
+		case "update":
+			// the caller changes its own document in place between two calls:
+			// one root member gets a new value (the member count stays). The
+			// next Search must see the document as it is now.
+			m, ok := built[op.Doc].(map[string]any)
+			if !ok || op.Node == nil {
+				break
+			}
+			if _, present := m[op.Expr]; !present {
+				break
+			}
+			m[op.Expr] = op.Node.Build()
+			nd := docs[op.Doc]
+			nd.A = append([]run.Node{}, nd.A...)
+			for i, k := range nd.K {
+				if k == op.Expr {
+					nd.A[i] = *op.Node
+				}
+			}
+			docs = append([]run.Node{}, docs...)
+			docs[op.Doc] = nd
+			snaps[op.Doc] = run.SnapshotFull(built[op.Doc])
+			// earlier results may be (parts of) that very document: they change
+			// with it, by the caller's own doing
+			for i := range results {
+				results[i].snap = run.SnapshotFull(results[i].raw)
+			}
 		case "mustcompile":
 			p, _ := run.MustCompilePanics(op.Expr)
 			_, co := run.Compile(op.Expr)
@@ -248,10 +275,18 @@ func TestC06_Reuse(t *testing.T) {
 		}
 		nops := rapid.IntRange(3, 12).Draw(t, "nops")
 		ops := make([]c06Op, nops)
+		updated := false
 		distinct := map[int]bool{}
 		for i := range ops {
 			d := rapid.IntRange(0, ndocs-1).Draw(t, "doc")
-			switch rapid.IntRange(0, 9).Draw(t, "op") {
+			switch rapid.IntRange(0, 10).Draw(t, "op") {
+			case 10:
+				ops[i] = c06Op{Op: "search", Doc: d}
+				if vals[d].K == jv.Obj && len(vals[d].O) > 0 {
+					nv := run.FromVal(gen.Value(t, gen.DocCfg{MaxDepth: 2, MaxFan: 3}, 1))
+					ops[i] = c06Op{Op: "update", Doc: d, Expr: vals[d].O[rapid.IntRange(0, len(vals[d].O)-1).Draw(t, "updkey")].K, Node: &nv}
+					updated = true
+				}
 			case 0:
 				ops[i] = c06Op{Op: "oneshot", Doc: d, Expr: ast.Render(g.Expr(vals[d], 1))}
 			case 1:
@@ -283,6 +318,9 @@ func TestC06_Reuse(t *testing.T) {
 			if r.Undet != "" || r.Err.Count() > 1 {
 				multi = true
 			}
+		}
+		if updated {
+			multi = true // the documents change under way: which of several faults comes first is not tracked
 		}
 		run.Watch(c, "reuse", run.Call{API: "expr-search", Expr: text, Doc: &docs[0]})
 		if msg := c06Run(text, docs, ops, loose, multi); msg != "" {
